@@ -4,6 +4,8 @@ import (
 	"fmt"
 	"strings"
 
+	"github.com/osteele/liquid/render"
+
 	"github.com/osteele/liquid"
 	"verifmc/explore"
 )
@@ -96,4 +98,48 @@ func c12StripRow(s string) string {
 		}
 	}
 	return sb.String()
+}
+
+// C12 through the extension API: a variable set by capture / assign / ctx.Set holds exactly that value for an application
+// tag that reads it with ctx.Get - whatever the name looks like (a dotted or bracketed name is just a name there) and
+// whatever its prefix is bound to.
+func c12ContextAPIFamily() explore.Family {
+	names := []string{"v", "item.size", "item.first", "item[0]", "x.y", "item", "forloop.index", "a.b.c", "item.k"}
+	prefixes := []struct {
+		name string
+		v    any
+	}{{"unbound", nil}, {"string", "abc"}, {"list", []any{"p", "q"}}, {"map", map[string]any{"k": "mv", "size": 9}}}
+	setters := []string{"{% capture NAME %}T{% endcapture %}", "{% setvar NAME %}"}
+	eng := liquid.NewEngine()
+	eng.RegisterTag("getvar", func(ctx render.Context) (string, error) {
+		return fmt.Sprint(ctx.Get(strings.TrimSpace(ctx.TagArgs()))), nil
+	})
+	eng.RegisterTag("setvar", func(ctx render.Context) (string, error) {
+		ctx.Set(strings.TrimSpace(ctx.TagArgs()), "T")
+		return "", nil
+	})
+	eng.RegisterTag("bindvar", func(ctx render.Context) (string, error) {
+		return fmt.Sprint(ctx.Bindings()[strings.TrimSpace(ctx.TagArgs())]), nil
+	})
+	return explore.Family{Name: "variables-read-through-the-render-context", Count: int64(len(names) * len(prefixes) * len(setters)), Run: func(i int64, r *explore.Rec) {
+		rx := radix{i}
+		set, pf, name := setters[rx.next(len(setters))], prefixes[rx.next(len(prefixes))], names[rx.next(len(names))]
+		src := strings.ReplaceAll(set+"[{% getvar NAME %}|{% bindvar NAME %}]{% for q in (1..2) %}{% getvar NAME %}{% endfor %}", "NAME", name)
+		bind := map[string]any{}
+		if pf.v != nil {
+			bind["item"], bind["x"], bind["a"] = pf.v, pf.v, pf.v
+		}
+		if name == "item" && pf.v != nil {
+			// the variable itself is overwritten by the setter
+		}
+		r.Eval()
+		r.Transition()
+		r.Trace()
+		o := Render(eng, src, bind)
+		r.Class("context-api/" + o.Class())
+		r.State("context-api")
+		if o.Panic != nil || o.Err != nil || o.Out != "[T|T]TT" {
+			r.Violation("wrong:value-read-through-render-context", map[string]any{"template": src, "prefix_bound_to": pf.name}, "[T|T]TT", o.String())
+		}
+	}}
 }
